@@ -2,7 +2,7 @@
     exact tail probabilities of the specification. *)
 From Coq Require Import ZArith List Bool Lia Permutation.
 From Perf Require Import Base.B64 Model.UStat Model.UDistSpec Model.UDistImpl Model.UTest.
-From Perf Require Import Proofs.UStat Proofs.UDistSpec Proofs.UDistImpl Proofs.UDistSum Proofs.UDistPrune.
+From Perf Require Import Proofs.UStat Proofs.UDistSpec Proofs.UDistImpl Proofs.UDistSum Proofs.UDistPrune Proofs.UDistRev.
 Import ListNotations.
 Local Open Scope Z_scope.
 
@@ -31,6 +31,17 @@ Qed.
 Lemma us_n_eq x1 x2 : us_n1 (ustat_of x1 x2) = zlen x1 /\ us_n2 (ustat_of x1 x2) = zlen x2.
 Proof. split; reflexivity. Qed.
 
+Lemma has_ties_rev t : has_ties (rev t) = has_ties t.
+Proof.
+  unfold has_ties. induction t as [|a t IH]; [reflexivity|].
+  cbn [rev]. rewrite existsb_app, IH. cbn [existsb]. rewrite orb_false_r. apply orb_comm.
+Qed.
+
+(** the argument of the mirrored CDF: U2 counted on the tie vector *)
+Lemma twoU2_mirror (s : ustat) : zsum (us_T s) = us_n1 s + us_n2 s ->
+  twoU2 s = 2 * (us_n1 s * (zsum (us_T s) - us_n1 s)) - us_twoU1 s.
+Proof. intros H. unfold twoU2. rewrite H. f_equal. f_equal. f_equal. lia. Qed.
+
 Definition pfrac_eq (p : pexact) (num den : Z) : Prop :=
   match pexact_frac p with Some (a, b) => a * den = num * b /\ 0 < b | None => False end.
 
@@ -52,11 +63,14 @@ Proof.
   - pose proof (cdf_tied_exact (us_T s) (us_n1 s) (us_n2 s) (2 * us_twoU1 s) Hpos Hlen Hht Hs' H1 H2) as H.
     replace (2 * us_twoU1 s / 2) with (us_twoU1 s) in H by (symmetry; rewrite Z.mul_comm; apply Z.div_mul; lia).
     unfold pfrac_eq, exact_p. cbn [pexact_frac]. exact H.
-  - pose proof (cdf_tied_exact (us_T s) (us_n1 s) (us_n2 s) (2 * (us_twoU1 s - 1)) Hpos Hlen Hht Hs' H1 H2) as H.
-    replace (2 * (us_twoU1 s - 1) / 2) with (us_twoU1 s - 1) in H by (symmetry; rewrite Z.mul_comm; apply Z.div_mul; lia).
-    unfold pfrac_eq, exact_p. cbn [pexact_frac]. unfold frac_eq in H.
-    destruct (dres_frac (cdf (us_n1 s) (us_n2 s) (us_T s) (2 * (us_twoU1 s - 1)))) as [[a b]|]; [|contradiction].
-    destruct H as [Hab Hb]. split; [|exact Hb].
-    pose proof (count_ge_le (us_T s) (us_n1 s) (us_twoU1 s)) as Hc.
-    rewrite (count_all_total (us_T s) Ht0) in Hc. nia.
+  - assert (Hposr : Forall (fun t => 1 <= t) (rev (us_T s))) by (apply Forall_rev; exact Hpos).
+    assert (Hlenr : (2 <= length (rev (us_T s)))%nat) by (rewrite rev_length; exact Hlen).
+    assert (Hhtr : has_ties (rev (us_T s)) = true) by (rewrite has_ties_rev; exact Hht).
+    assert (Hsr : zsum (rev (us_T s)) = us_n1 s + us_n2 s) by (rewrite zsum_rev; exact Hs').
+    pose proof (cdf_tied_exact (rev (us_T s)) (us_n1 s) (us_n2 s) (2 * twoU2 s) Hposr Hlenr Hhtr Hsr H1 H2) as H.
+    replace (2 * twoU2 s / 2) with (twoU2 s) in H by (symmetry; rewrite Z.mul_comm; apply Z.div_mul; lia).
+    assert (Hc : count_le (rev (us_T s)) (us_n1 s) (twoU2 s) = count_ge (us_T s) (us_n1 s) (us_twoU1 s))
+      by (rewrite (twoU2_mirror s Hs'); apply count_le_rev; exact Ht0).
+    rewrite Hc, total_rev in H.
+    unfold pfrac_eq, exact_p. cbn [pexact_frac]. exact H.
 Qed.
